@@ -294,7 +294,7 @@ func (m *model) remaining(i int, group string, now time.Time) int64 {
 // character only - header-defined groups are keyed by the whole value
 var (
 	longGroup   = strings.Repeat("eyJhbGciOiJIUzI1NiJ9.", 8) + "c2lnbmF0dXJl"
-	groupValues = []string{"", "a", "b", longGroup + "1", "a", "b", longGroup + "2"}
+	groupValues = []string{"", "a", "b", longGroup + "1", "a", "b", longGroup + "2", "a_b"}
 )
 
 type step struct {
@@ -312,6 +312,22 @@ func genSteps(c config) *rapid.Generator[[]step] {
 	return rapid.Custom(func(t *rapid.T) []step {
 		n := rapid.IntRange(3, 40).Draw(t, "len")
 		out := []step{}
+		// one history in six with a grouped quota starts with two groups whose header values are related by the
+		// separator of the quota's state keys ("a" and "a_b"; keys are <quota>_<group>_<suffix>): both are used,
+		// a window later "a_b" is used up to its maximum while "a" stays idle, a group never seen before shows up,
+		// and "a_b" asks again
+		for lvl := range c.Nodes {
+			if m, w, g := c.eff(lvl); g != "" && m >= 1 && m <= 6 && rapid.IntRange(0, 5).Draw(t, "related-groups") == 0 {
+				rel := rapid.SampledFrom([][2]string{{"a", "a_b"}, {"a", "a_currentCount"}, {"a_b", "a_b_c"}, {"a", "a_"}}).Draw(t, "pair")
+				out = append(out, step{Op: "req", Level: lvl, Group: rel[1]}, step{Op: "req", Level: lvl, Group: rel[0]},
+					step{Op: "adv", D: w + rapid.SampledFrom([]time.Duration{0, time.Millisecond, time.Second}).Draw(t, "rel-d")})
+				for i := int64(0); i < m; i++ {
+					out = append(out, step{Op: "req", Level: lvl, Group: rel[1]})
+				}
+				out = append(out, step{Op: "req", Level: lvl, Group: "zz-new"}, step{Op: "req", Level: lvl, Group: rel[1]})
+				break
+			}
+		}
 		for k := 0; k < n; k++ {
 			switch rapid.IntRange(0, 10).Draw(t, "op") {
 			case 10:
